@@ -11,7 +11,7 @@ meta = json.load(open(d + "/meta.json"))
 checks = sys.argv[2:] or [meta["property"]]
 tier = os.environ.get("TIER", "quick")
 def sh(c, **k): return subprocess.run(c, shell=True, text=True, capture_output=True, **k)
-assert sh("git -C /repo status --porcelain --untracked-files=no").stdout.strip() == "", "repo dirty"
+assert sh("git -C /repo status --porcelain -- src tests Cargo.toml").stdout.strip() == "", "repo dirty"
 res = meta.get("detection", {})
 try:
     r = sh("git -C /repo apply %s/patch.diff" % d); assert r.returncode == 0, r.stderr
@@ -24,6 +24,6 @@ try:
         res["%s %s" % (c, tier)] = dict(exit=r.returncode, violation_lines=len(viol), first_witness=(wit[0].strip() if wit else ""), wall_s=round(time.time() - t0, 1))
         print(name, c, tier, "exit", r.returncode, "|", (wit[0].strip()[:160] if wit else lines[-1][:160] if lines else ""))
 finally:
-    sh("git -C /repo checkout -- .")
+    sh("git -C /repo checkout -- . && git -C /repo clean -fdq -- src tests benches")
 meta["detection"] = res
 json.dump(meta, open(d + "/meta.json", "w"), indent=1, ensure_ascii=False)
